@@ -121,20 +121,48 @@ theorem knownOK_initSt (args : Args) (h : ∀ a ∈ args, userName a.1 = true) :
     · simp [lookup] at h1
   · simp [lookup] at hn
 
-theorem replaceAnn_tyAnn (t : Ty) : replaceAnn (tyAnn t) = .ok (tyAnn t) := by
-  cases t with
-  | bool => simp [tyAnn, replaceAnn, pure, Except.pure]
-  | qint w => simp [tyAnn, replaceAnn, pure, Except.pure]
-  | qchar => simp [tyAnn, replaceAnn, pure, Except.pure]
-  | tuple ts => simp [tyAnn, replaceAnn, pure, Except.pure]
+mutual
+theorem replaceAnn_tyAnn : ∀ t : Ty, replaceAnn (tyAnn t) = .ok (tyAnn t)
+  | .bool => by simp [tyAnn, replaceAnn, pure, Except.pure]
+  | .qint w => by simp [tyAnn, replaceAnn, pure, Except.pure]
+  | .qchar => by simp [tyAnn, replaceAnn, pure, Except.pure]
+  | .tuple ts => by
+    simp [tyAnn, replaceAnn, replaceAnns_tyAnns ts, bind, Except.bind, pure, Except.pure]
+theorem replaceAnns_tyAnns : ∀ ts : List Ty, replaceAnns (tyAnns ts) = .ok (tyAnns ts)
+  | [] => by simp [tyAnns, replaceAnns, pure, Except.pure]
+  | t :: ts => by
+    simp [tyAnns, replaceAnns, replaceAnn_tyAnn t, replaceAnns_tyAnns ts, bind, Except.bind, pure, Except.pure]
+end
 
-/-- `ReplaceTypeAnn` leaves the annotations `bool` / `Qint[w]` of the theorems' programs as they are -/
+/-- `ReplaceTypeAnn` leaves the annotations of the model's types as they are -/
 theorem replaceArgs_aargsOf (p : SProg) : replaceArgs (aargsOf p) = .ok (aargsOf p) := by
   unfold aargsOf
   induction p.args with
   | nil => simp [replaceArgs, pure, Except.pure]
   | cons a as ih =>
     simp only [List.map_cons, replaceArgs, replaceAnn_tyAnn, ih, bind, Except.bind, pure, Except.pure]
+
+/-- visiting such an annotation changes nothing and raises nothing -/
+theorem visitE_tyAnn (st : RSt) (t : Ty) : visitE st (tyAnn t) = .ok (tyAnn t) := by
+  cases t with
+  | bool => simp [tyAnn, visitE, pure, Except.pure]; decide
+  | qint w => rfl
+  | qchar => simp [tyAnn, visitE, pure, Except.pure]; decide
+  | tuple ts => rfl
+
+theorem replaceRet_tyAnn (t : Ty) : replaceRet (some (tyAnn t)) = .ok (some (tyAnn t)) := by
+  simp [replaceRet, replaceAnn_tyAnn, bind, Except.bind, pure, Except.pure]
+
+theorem visitRet_tyAnn (st : RSt) (t : Ty) : visitRet st (some (tyAnn t)) = .ok () := by
+  simp [visitRet, visitE_tyAnn, bind, Except.bind, pure, Except.pure]
+
+theorem visitAnns_aargsOf (st : RSt) (p : SProg) : visitAnns st ((aargsOf p).map (·.2)) = .ok () := by
+  unfold aargsOf
+  induction p.args with
+  | nil => simp [visitAnns, pure, Except.pure]
+  | cons a as ih =>
+    simp only [List.map_cons, List.map_map, visitAnns, visitE_tyAnn, bind, Except.bind] at ih ⊢
+    exact ih
 
 /-- **the rewriter preserves the source-level meaning** (programs of `okProg`): whenever the fixed-width
 meaning `Sem.semProg` of the rewritten, straight-line program is defined, it is the source-level meaning
